@@ -31,6 +31,9 @@ UNDECIDED: Dict[str, str] = {
                 "(first += step - rem): the union over the children is no longer unconditional, and whether "
                 "the skip condition is right is arithmetic with %, which the linear rules do not decide — the "
                 "check reports 'cannot decide' (exit 2), not a violation",
+    "r8-C05-3": "the 'at' tree helper trims a strided query to its last member with a floor division "
+                "((stop - start) // step): arithmetic outside the linear fragment of the boundary rules - "
+                "the check reports 'cannot decide' (exit 2), not a violation",
 }
 # seeded changes whose author demonstrated them through the property they were asked about, but
 # which leave that property's subject untouched and break another one: the check of the property
@@ -40,6 +43,8 @@ REASSIGNED = {
                         "content (ListFields), so a saved all-default label is lost on load (C02/C01)"),
     "r6-C18-3": ("C02", "deep_eq itself is unchanged: the writer drops Symbol.at_end for symbols without a "
                         "referent (C02/C01)"),
+    "r8-C18-1": ("C02", "deep_eq itself is unchanged: the writer reuses one scratch SymbolicExpression message, so "
+                        "attribute flags of earlier expressions leak into later ones in the saved file (C02/C01)"),
     "r7-C18-2": ("C02", "deep_eq itself is unchanged: the writer drops an entry point that belongs to another "
                         "module of the IR (C02/C01)"),
 }
